@@ -208,9 +208,9 @@ void ppExGCD(word d[], word da[], word db[], const word a[], size_t n,
 	}
 	while (!wwIsZero(u, nu));
 	// d <- v
-	wwCopy(d, v, m);
+	wwCopy(d, v, MIN2(n, m));
 	// d <- d * 2^s
-	wwShHi(d, W_OF_B(wwBitSize(d, m) + s), s);
+	wwShHi(d, W_OF_B(wwBitSize(d, MIN2(n, m)) + s), s);
 	// очистка
 	s = 0;
 }
